@@ -50,11 +50,15 @@ def _run_render_batch(exe, items):
     b = hconf.Batch(exe, leaks=False)
     files = {}
     try:
-        for tag, tree, feats, rseed in items:
+        # what a file means must not depend on what was (unsuccessfully) read before it: every third tree is preceded by the load of
+        # a file that is rejected in the middle of a list, of a string or of a nested object
+        rejected = [b.add_file(x) for x in (b'junk ( q1 q2 )\n', b'junk { inner ( a, b\n', b'junk "unterminated\n', b'a { b { c ( x y ) } }\n')]
+        for k, (tag, tree, feats, rseed) in enumerate(items):
             data = confgen.render(tree, feats, rseed)
             files[tag] = data
             p = b.add_file(data)
-            b.case(tag, ["LOAD " + confgen.pct(p), "DUMP"])
+            pre = ["XLOAD " + confgen.pct(rejected[(k // 3) % len(rejected)])] if k % 3 == 0 else []
+            b.case(tag, pre + ["LOAD " + confgen.pct(p), "DUMP"])
         recs, r = b.run()
     finally:
         b.cleanup()
@@ -179,6 +183,10 @@ def gen_typed(rng):
         return 1, t, BOOLS[t]
     if k == "integer":
         v = rng.choice([0, 1, 7, 321, 65535, 65536, 2 ** 31 - 1, rng.randrange(2 ** 31)])
+        if rng.random() < 0.15:
+            # integers may be negative (written in decimal with a leading '-')
+            v = -rng.choice([1, 5, 40, 321, 65536, 2 ** 31 - 1, 2 ** 31])
+            return 2, "%d" % v, v
         return 2, (("0x%x" % v) if rng.random() < 0.4 else ("%d" % v)), v
     if k == "interval":
         total = 0
